@@ -150,8 +150,22 @@ func parseInt(buf []byte) (i int64) {
 }
 
 // parseUint parses a []byte of a string representation of a uint64 value and returns the value.
+// White space around the digits (an indented element value) is ignored; text
+// that is not a decimal number that fits uint64 gives 0.
 func parseUint(buf []byte) (u uint64) {
+	for len(buf) > 0 && isSpace(buf[0]) {
+		buf = buf[1:]
+	}
+	for len(buf) > 0 && isSpace(buf[len(buf)-1]) {
+		buf = buf[:len(buf)-1]
+	}
+	if len(buf) > 19 {
+		return 0
+	}
 	for i := 0; i < len(buf); i++ {
+		if buf[i] < '0' || buf[i] > '9' {
+			return 0
+		}
 		u *= 10
 		u += uint64(buf[i] - '0')
 	}
@@ -163,6 +177,15 @@ func parseUint(buf []byte) (u uint64) {
 func parseUint32(buf []byte) (u uint32) {
 	if i := parseUint(buf); i <= math.MaxUint32 {
 		return uint32(i)
+	}
+	return 0
+}
+
+// parseUint16 parses a []byte of a string representation of a uint16 value and returns the value.
+// If the value is larger than uint16 returns 0.
+func parseUint16(buf []byte) (u uint16) {
+	if i := parseUint(buf); i <= math.MaxUint16 {
+		return uint16(i)
 	}
 	return 0
 }
